@@ -21,6 +21,7 @@ from scipy.linalg import expm
 ATOL = 1e-13          # Settings.get_atol() default
 EPS = "1/10000000000000"
 TOL = 1e-9
+ABS_FLOOR = 1e-12      # 10 x Settings atol: slack for quara's absolute truncation of entries below 1e-13
 
 
 # ----------------------------------------------------------------------------- systems
@@ -190,7 +191,10 @@ def near(a, b, tol=TOL, ref=1.0):
     if a.shape != b.shape:
         return False
     sc = max(float(ref), float(np.abs(a).max(initial=0)), float(np.abs(b).max(initial=0)))
-    return bool(np.abs(a - b).max(initial=0) <= tol * sc)
+    # + ABS_FLOOR: every hs that quara returns went through `_truncate_hs`, whose fluctuation cut sets entries with
+    # |x| < atol = 1e-13 to 0 (ABSOLUTE, whatever the strength of the generator); a genuine entry just below the cut is
+    # therefore off by up to 1e-13, and sums / extractions of a few such entries by a small multiple of it
+    return bool(np.abs(a - b).max(initial=0) <= tol * sc + ABS_FLOOR)
 
 
 def err_kind(e):
